@@ -19,3 +19,14 @@ package lz4
 //@   decreases #0 512*len(source) - i
 //@   ensures complete: lz4valid(source) && lz4origlen(source) <= 255*len(source) ==> err == nil && len(dest) == lz4origlen(source)
 //@   ensures sound: err == nil ==> lz4valid(source) && len(dest) == lz4origlen(source)
+
+// An LZ4 block is never empty (even the empty input has a one-byte token): a compressor that reports success has
+// written at least one byte (after the 4-byte length prefix in the body format). With a destination buffer smaller
+// than CompressBlockBound the library may report success having written nothing - which is why the buffer must be
+// sized by the bound.
+//@ func (Compressor).Compress
+//@   prop C08, C06
+//@   ensures block: result == nil ==> written(dest) >= old(written(dest)) + 1
+//@ func (Compressor).CompressWithLength
+//@   prop C08, C06
+//@   ensures block: result == nil ==> written(dest) >= old(written(dest)) + 5
